@@ -379,6 +379,16 @@ func (m *monC18) readerInvokes(f *Flow) {
 
 func (m *monC18) Final(f *Flow) {
 	w := f.W
+	// the conforming broker's CONNACK is never at fault: an error that blames
+	// it means a valid accepting CONNACK was rejected
+	if f.O.HostileHandshake == 0 && len(f.Hostiles) == 0 {
+		for i, e := range f.ReaderErrs {
+			if s := e.Error(); strings.Contains(s, "CONNACK with") || strings.Contains(s, "want fixed CONNACK") {
+				w.Violate("C18", "valid-connack-rejected", errKind(e), "ReadSlices reported %q at step %d although every CONNACK of the reference broker was well-formed and consistent with its CONNECT", s, f.ReaderErrSteps[i])
+				break
+			}
+		}
+	}
 	var refusedSteps []int
 	for i, e := range f.ReaderErrs {
 		if mqtt.IsConnectionRefused(e) {
@@ -468,18 +478,30 @@ func (m *monC03) Online(f *Flow, c *Conn) {
 func (m *monC03) Final(f *Flow) {
 	w := f.W
 	_ = w
+	// deliveries are counted per broker session: a session the client asked
+	// to be discarded (clean session) takes the broker's exactly-once state
+	// with it, a repeat in the next session is the user's choice
 	n := map[string]int{}
+	perEpoch := map[string]map[int]int{}
+	most := map[string]int{}
 	for _, d := range w.Broker.Deliv {
 		if d.QoS == 2 {
 			n[d.Topic]++
+			if perEpoch[d.Topic] == nil {
+				perEpoch[d.Topic] = map[int]int{}
+			}
+			perEpoch[d.Topic][d.Epoch]++
+			if k := perEpoch[d.Topic][d.Epoch]; k > most[d.Topic] {
+				most[d.Topic] = k
+			}
 		}
 	}
 	for _, pb := range f.Pubs {
 		if pb.QoS != 2 {
 			continue
 		}
-		if n[pb.Topic] > 1 {
-			w.Violate("C03", "delivered-twice", "broker", "exactly-once publish #%d (%s) reached the broker's subscribers %d times", pb.Idx, pb.Topic, n[pb.Topic])
+		if most[pb.Topic] > 1 {
+			w.Violate("C03", "delivered-twice", "broker", "exactly-once publish #%d (%s) reached the broker's subscribers %d times within one session", pb.Idx, pb.Topic, most[pb.Topic])
 		}
 		if pb.Accepted() && pb.ExClosed && n[pb.Topic] == 0 {
 			w.Violate("C03", "completed-undelivered", "broker", "exactly-once publish #%d (%s) completed but never reached the broker's subscribers", pb.Idx, pb.Topic)
@@ -1054,6 +1076,13 @@ func (m *monC07) Wire(f *Flow, c *Conn, p *WirePkt) {
 		if sent {
 			what = "undelivered"
 		}
+		if w.Broker.Resets > 0 {
+			// a discarded session (clean session) leaves the client with
+			// reception records and a pending acknowledgement of messages
+			// the new session knows nothing about
+			w.Probe("ack_after_session_reset")
+			return
+		}
 		w.Violate("C07", "ack-without-return", what+"-"+typeNames[p.Type], "conn%d: %s written but no message with that identifier was ever returned by ReadSlices", c.id, p.String())
 		return
 	}
@@ -1079,9 +1108,18 @@ func (m *monC07) Final(f *Flow) {
 	if w.Inconcl != "" || f.QStartStep == 0 {
 		return
 	}
+	current := map[*OutMsg]bool{}
+	if sess := w.Broker.Sessions[f.O.ClientID]; sess != nil {
+		for _, o := range sess.Out {
+			current[o] = true
+		}
+	}
 	for _, r := range f.Recvs {
 		if r.Out == nil || r.Out.QoS == 0 || r.Gen != w.Gen {
 			continue
+		}
+		if !current[r.Out] {
+			continue // its session was discarded (clean session): nobody is left to acknowledge to
 		}
 		if (r.Out.QoS == 1 && r.Out.PubackN == 0) || (r.Out.QoS == 2 && r.Out.PubrecN == 0) {
 			w.Violate("C07", "never-acknowledged", fmt.Sprintf("q%d%s", r.Out.QoS, f.stuckWhere()), "message %d (%q, id %#04x) was returned at step %d but never acknowledged; the quiescence phase ended after %v", r.Idx, trunc(r.Topic, 24), r.Out.ID, r.Step, f.S.Now()-f.QStartTime)
